@@ -20,4 +20,5 @@ def build(bin_step, py_step, miri_step, fuzz_step):
     S["C15"] = [bin_step("c11", prop="C15")]
     S["C19"] = [bin_step("c19")]
     S["C10"] = [py_step("gen_chain")]
+    S["C17"] = [py_step("gen_reject")]
     return S
